@@ -189,3 +189,16 @@ def _token_of_kind(token_text, type, aliased):  # pylint: disable=redefined-buil
 
 REAL["TokenKind"] = _token_kind
 REAL["TokenOfKind"] = _token_of_kind
+
+
+def _record_with_genes(_cds_features):
+    from Bio.Seq import Seq
+    from antismash.common.secmet import Record
+    genes = list(_cds_features)
+    record = Record(Seq("A" * max([int(gene.location.end) for gene in genes] + [1])))
+    record._cds_features = genes  # pylint: disable=protected-access
+    return record
+
+
+REAL["GeneOnOneStretch"] = _gene_location_only
+REAL["RecordWithGenes"] = _record_with_genes
